@@ -682,8 +682,14 @@ func exprString(v ssa.Value) string {
 	case *ssa.Parameter:
 		return x.Name()
 	case *ssa.Const:
-		return x.String()
+		if x.Value == nil {
+			return "nil"
+		}
+		return x.Value.ExactString()
 	case *ssa.Extract:
+		if _, ok := x.Tuple.(*ssa.Next); ok {
+			return exprString(x.Tuple) + [...]string{".ok", ".key", ".value"}[x.Index%3]
+		}
 		return exprString(x.Tuple)
 	case *ssa.TypeAssert:
 		return exprString(x.X) + ".(" + x.AssertedType.String() + ")"
@@ -701,10 +707,65 @@ func exprString(v ssa.Value) string {
 		if f := x.Call.StaticCallee(); f != nil {
 			return f.Name() + "(…)"
 		}
+		if b, ok := x.Call.Value.(*ssa.Builtin); ok {
+			s := b.Name() + "("
+			for i, a := range x.Call.Args {
+				if i > 0 {
+					s += ","
+				}
+				s += exprString(a)
+			}
+			return s + ")"
+		}
+		if a := world.Accessor(x.Call.Value); a != "" {
+			return "params." + a + "(…)"
+		}
+		return "call(…)"
 	case *ssa.Phi:
 		return "phi(" + x.Comment + ")"
+	case *ssa.IndexAddr:
+		return exprString(x.X) + "[" + exprString(x.Index) + "]"
+	case *ssa.Index:
+		return exprString(x.X) + "[" + exprString(x.Index) + "]"
+	case *ssa.Slice:
+		s := exprString(x.X) + "["
+		if x.Low != nil {
+			s += exprString(x.Low)
+		}
+		s += ":"
+		if x.High != nil {
+			s += exprString(x.High)
+		}
+		return s + "]"
+	case *ssa.Alloc:
+		if x.Comment != "" {
+			return x.Comment
+		}
+		return "local"
+	case *ssa.FreeVar:
+		return x.Name()
+	case *ssa.Global:
+		return x.Name()
+	case *ssa.Next:
+		return "range(" + exprString(x.Iter) + ")"
+	case *ssa.Range:
+		return exprString(x.X)
+	case *ssa.BinOp:
+		return exprString(x.X) + x.Op.String() + exprString(x.Y)
+	case *ssa.Convert:
+		return exprString(x.X)
+	case *ssa.ChangeType:
+		return exprString(x.X)
+	case *ssa.MakeInterface:
+		return exprString(x.X)
+	case *ssa.Builtin:
+		return x.Name()
+	case *ssa.Function:
+		return x.Name()
+	case *ssa.MakeClosure:
+		return "func"
 	}
-	return v.Name()
+	return "<" + strings.TrimPrefix(fmt.Sprintf("%T", v), "*ssa.") + ">"
 }
 
 func ruleD4(w *world.World, r *report.RuleResult) {
